@@ -1,6 +1,6 @@
-(* Store/CrashProofs.v — crash safety of the record-level persistence model: after a crash at any point of
-   any history, recovery of any admissible image contains every batch acknowledged as durable, only issued
-   batches, each at most once, in issue order. *)
+(* Store/CrashProofs.v — crash safety of the record-level persistence model: after any history — including
+   failed writes, crashes and recoveries, and crashes inside a recovery — recovery of any admissible image
+   contains every batch acknowledged as durable, only issued batches, each at most once, in issue order. *)
 From GL Require Import Store.Crash.
 From Coq Require Import Arith Lia ZifyN ZifyNat ZifyBool.
 
@@ -25,7 +25,6 @@ Lemma last_sq_app es e d : last_sq (es ++ [e]) d = match m_seq e with Some q => 
 Proof. revert d; induction es as [|x r IH]; intros d; cbn [app last_sq]; [reflexivity|apply IH]. Qed.
 Lemma mtabs_app es1 es2 : mtabs (es1 ++ es2) = mtabs es1 ++ mtabs es2.
 Proof. unfold mtabs. rewrite map_app, concat_app. reflexivity. Qed.
-
 Lemma mtabs_single e : mtabs [e] = m_tab e.
 Proof. unfold mtabs. cbn. apply app_nil_r. Qed.
 
@@ -47,96 +46,85 @@ Proof.
   intros H Hb. destruct (firstn_le_app es k1 k2 H) as [r ->]. rewrite mtabs_app. apply in_or_app. left; exact Hb.
 Qed.
 
-(* ---- chains of contiguous batches ---- *)
-(* chain lo l hi: the batches of l are contiguous, start right after lo and end at hi *)
-Fixpoint chain (lo : N) (l : list batch) (hi : N) : Prop :=
+Lemma in_firstn {A} (l : list A) k x : In x (firstn k l) -> In x l.
+Proof. intros H. rewrite <- (firstn_skipn k l). apply in_or_app. left; exact H. Qed.
+
+Lemma in_firstn_mono {A} (l : list A) k1 k2 x : (k1 <= k2)%nat -> In x (firstn k1 l) -> In x (firstn k2 l).
+Proof. intros H Hx. destruct (firstn_le_app l k1 k2 H) as [r ->]. apply in_or_app. left; exact Hx. Qed.
+
+Lemma firstn_incl_app {A} (l x : list A) k1 k2 b : (k1 <= k2)%nat -> (k1 <= length l)%nat ->
+  In b (firstn k1 l) -> In b (firstn k2 (l ++ x)).
+Proof.
+  intros H1 H2 Hb. destruct (firstn_le_app (l ++ x) k1 k2 H1) as [r ->].
+  rewrite (firstn_app_le l x k1 H2). apply in_or_app. left; exact Hb.
+Qed.
+
+Lemma firstn_min_len {A} (l : list A) k : firstn k l = firstn (Nat.min k (length l)) l.
+Proof.
+  destruct (Nat.le_gt_cases k (length l)) as [H|H].
+  - replace (Nat.min k (length l)) with k by lia. reflexivity.
+  - replace (Nat.min k (length l)) with (length l) by lia. rewrite firstn_all. apply firstn_all2. lia.
+Qed.
+
+(* ---- chains: what the sequence check of recovery accepts ---- *)
+(* gchain cur l cur': replaying l with running number cur accepts every batch (its first sequence number is
+   not below the running number) and ends with a running number <= cur' *)
+Fixpoint gchain (cur : N) (l : list batch) (cur' : N) : Prop :=
   match l with
-  | [] => lo = hi
-  | b :: r => b_seq b = lo + 1 /\ 1 <= b_n b /\ chain (lo + b_n b) r hi
+  | [] => cur <= cur'
+  | b :: r => cur <= b_seq b /\ 1 <= b_n b /\ gchain (b_seq b + b_n b) r cur'
   end.
 
-Lemma chain_app lo l1 mid l2 hi : chain lo l1 mid -> chain mid l2 hi -> chain lo (l1 ++ l2) hi.
+Lemma gchain_weaken l : forall c1 c2 e1 e2, gchain c1 l e1 -> c2 <= c1 -> e1 <= e2 -> gchain c2 l e2.
 Proof.
-  revert lo; induction l1 as [|b r IH]; intros lo H1 H2; cbn [chain app] in *.
-  - subst. exact H2.
-  - destruct H1 as (A & B & C). repeat split; auto.
+  induction l as [|b r IH]; intros c1 c2 e1 e2 H H1 H2; cbn [gchain] in *; [lia|].
+  destruct H as (A & B & C). repeat split; [lia|exact B|]. eapply IH; [exact C|lia|exact H2].
 Qed.
 
-Lemma chain_snoc lo l hi b : chain lo l hi -> b_seq b = hi + 1 -> 1 <= b_n b -> chain lo (l ++ [b]) (hi + b_n b).
-Proof. intros H1 H2 H3. eapply chain_app; [exact H1|]. cbn. auto. Qed.
-
-Lemma chain_le lo l hi : chain lo l hi -> lo <= hi.
+Lemma gchain_le l : forall c e, gchain c l e -> c <= e.
 Proof.
-  revert lo; induction l as [|b r IH]; intros lo H; cbn [chain] in H; [lia|].
-  destruct H as (_ & B & C). apply IH in C. lia.
+  induction l as [|b r IH]; intros c e H; cbn [gchain] in H; [exact H|].
+  destruct H as (A & B & C). apply IH in C. lia.
 Qed.
 
-Lemma last_some_nonempty (l : list batch) x : last (map Some (x :: l)) None <> None.
+Lemma gchain_app l1 : forall c mid l2 e, gchain c l1 mid -> gchain mid l2 e -> gchain c (l1 ++ l2) e.
 Proof.
-  revert x; induction l as [|y r IH]; intros x; [cbn; discriminate|].
-  change (last (map Some (x :: y :: r)) None) with (last (map Some (y :: r)) None). apply IH.
+  induction l1 as [|b r IH]; intros c mid l2 e H1 H2; cbn [gchain app] in *.
+  - eapply gchain_weaken; [exact H2|exact H1|lia].
+  - destruct H1 as (A & B & C). repeat split; auto. eapply IH; eauto.
 Qed.
 
-Lemma chain_last lo l hi : chain lo l hi ->
-  match last (map Some l) None with Some b => b_last b = hi | None => lo = hi end.
+Lemma gchain_firstn l : forall c e k, gchain c l e -> gchain c (firstn k l) e.
 Proof.
-  revert lo; induction l as [|b r IH]; intros lo H; cbn [chain map last] in *; [exact H|].
-  destruct H as (A & B & C). destruct r as [|b2 r'].
-  - cbn in *. subst hi. unfold b_last. lia.
-  - cbn [map] in *. specialize (IH _ C).
-    pose proof (last_some_nonempty r' b2) as NE. cbn [map] in NE.
-    destruct (last (Some b2 :: map Some r') None); [exact IH|congruence].
+  induction l as [|b r IH]; intros c e k H; destruct k as [|k]; cbn [firstn gchain] in *; auto.
+  - destruct H as (A & B & C). apply gchain_le in C. lia.
+  - destruct H as (A & B & C). repeat split; auto.
 Qed.
 
-Lemma chain_in_bounds lo l hi b : chain lo l hi -> In b l -> lo < b_seq b /\ b_seq b + b_n b <= hi + 1 /\ 1 <= b_n b.
+Lemma gchain_in l : forall c e b, gchain c l e -> In b l -> c <= b_seq b /\ b_seq b + b_n b <= e /\ 1 <= b_n b.
 Proof.
-  revert lo; induction l as [|x r IH]; intros lo H Hb; [destruct Hb|].
-  cbn [chain] in H. destruct H as (A & B & C). destruct Hb as [->|Hb].
-  - pose proof (chain_le _ _ _ C). lia.
-  - destruct (IH _ C Hb) as (P & Q & R). lia.
+  induction l as [|x r IH]; intros c e b H Hb; [destruct Hb|].
+  cbn [gchain] in H. destruct H as (A & B & C). destruct Hb as [->|Hb].
+  - pose proof (gchain_le _ _ _ C). lia.
+  - destruct (IH _ _ _ C Hb) as (P & Q & R). lia.
 Qed.
 
-(* accepted-by-recovery chains: every batch starts at or after the running sequence number *)
-Fixpoint ge_chain (cur : N) (l : list batch) : Prop :=
-  match l with
-  | [] => True
-  | b :: r => cur <= b_seq b /\ ge_chain (b_seq b + b_n b) r
-  end.
-
-Lemma chain_ge_chain lo l hi cur : chain lo l hi -> cur <= lo + 1 -> ge_chain cur l.
+Lemma replay_gchain l : forall cur e acc, gchain cur l e ->
+  snd (replay_journal l cur acc) = acc ++ l /\ fst (replay_journal l cur acc) <= e /\ cur <= fst (replay_journal l cur acc).
 Proof.
-  revert lo cur; induction l as [|b r IH]; intros lo cur H Hc; cbn [chain ge_chain] in *; [exact I|].
-  destruct H as (A & B & C). split; [lia|]. eapply IH; [exact C|lia].
+  induction l as [|b r IH]; intros cur e acc H; cbn [replay_journal gchain] in *.
+  - cbn. rewrite app_nil_r. repeat split; lia.
+  - destruct H as (A & B & C). replace (b_seq b <? cur) with false by (symmetry; apply N.ltb_ge; exact A).
+    destruct (IH _ _ (acc ++ [b]) C) as (R1 & R2 & R3). rewrite R1, <- app_assoc. repeat split; [exact R2|lia].
 Qed.
 
-Lemma ge_chain_firstn cur l k : ge_chain cur l -> ge_chain cur (firstn k l).
-Proof.
-  revert cur k; induction l as [|b r IH]; intros cur [|k] H; cbn [firstn ge_chain] in *; auto.
-  destruct H as [A B]. split; [exact A|apply IH; exact B].
-Qed.
+(* after replaying a chain the remaining interval is still a (trivial) chain end: the running number reached is
+   a valid start for anything that was valid from the chain's end *)
+Lemma replay_gchain_end l : forall cur e acc, gchain cur l e ->
+  gchain (fst (replay_journal l cur acc)) [] e.
+Proof. intros cur e acc H. cbn. apply (replay_gchain l cur e acc H). Qed.
 
-Lemma replay_accepts l cur acc : ge_chain cur l ->
-  snd (replay_journal l cur acc) = acc ++ l.
-Proof.
-  revert cur acc; induction l as [|b r IH]; intros cur acc H; cbn [replay_journal]; [cbn; rewrite app_nil_r; reflexivity|].
-  destruct H as [A B]. replace (b_seq b <? cur) with false by (symmetry; apply N.ltb_ge; exact A).
-  rewrite (IH _ _ B). rewrite <- app_assoc. reflexivity.
-Qed.
-
-(* the running number after replaying a prefix of a chain stays within the chain *)
-Lemma replay_cur_bound lo l hi cur acc : chain lo l hi -> cur <= lo + 1 -> forall k,
-  fst (replay_journal (firstn k l) cur acc) <= hi + 1.
-Proof.
-  revert lo cur acc; induction l as [|b r IH]; intros lo cur acc H Hc k.
-  - cbn in H. subst. destruct k; cbn [firstn replay_journal fst]; lia.
-  - cbn [chain] in H. destruct H as (A & B & C). destruct k as [|k]; cbn [firstn replay_journal].
-    + cbn [fst]. pose proof (chain_le _ _ _ C). lia.
-    + replace (b_seq b <? cur) with false by (symmetry; apply N.ltb_ge; lia).
-      eapply IH; [exact C|lia].
-Qed.
-
-(* whatever is replayed, the result stays sorted and below the running number (this is what the sequence
-   check of decodeBatchToMem buys): no duplicates, issue order *)
+(* sortedness *)
 Definition below (cur : N) (l : list batch) : Prop := forall b, In b l -> b_seq b + b_n b <= cur.
 Fixpoint sorted_b (l : list batch) : Prop :=
   match l with
@@ -144,65 +132,50 @@ Fixpoint sorted_b (l : list batch) : Prop :=
   | a :: r => (forall b, In b r -> b_seq a + b_n a <= b_seq b) /\ sorted_b r
   end.
 
-Lemma sorted_b_snoc l b : sorted_b l -> (forall a, In a l -> b_seq a + b_n a <= b_seq b) -> sorted_b (l ++ [b]).
+Lemma gchain_sorted l : forall c e, gchain c l e -> sorted_b l /\ below e l.
 Proof.
-  induction l as [|x r IH]; intros H1 H2; cbn [app sorted_b] in *; [split; [intros ? []|exact I]|].
+  induction l as [|b r IH]; intros c e H; cbn [gchain] in H; [split; [exact I|intros ? []]|].
+  destruct H as (A & B & C). destruct (IH _ _ C) as [S Bl]. split.
+  - split; [|exact S]. intros y Hy. destruct (gchain_in _ _ _ y C Hy). lia.
+  - intros y [<-|Hy]; [pose proof (gchain_le _ _ _ C); lia|apply Bl; exact Hy].
+Qed.
+
+Lemma sorted_b_app l1 l2 : sorted_b l1 -> sorted_b l2 ->
+  (forall a b, In a l1 -> In b l2 -> b_seq a + b_n a <= b_seq b) -> sorted_b (l1 ++ l2).
+Proof.
+  induction l1 as [|x r IH]; intros H1 H2 H3; cbn [app sorted_b] in *; [exact H2|].
   destruct H1 as [A B]. split.
-  - intros y Hy. apply in_app_or in Hy as [Hy|[<-|[]]]; [apply A; exact Hy|apply H2; left; reflexivity].
-  - apply IH; [exact B|]. intros a Ha. apply H2. right; exact Ha.
-Qed.
-
-Lemma replay_sorted l cur acc : sorted_b acc -> below cur acc ->
-  sorted_b (snd (replay_journal l cur acc)) /\ below (fst (replay_journal l cur acc)) (snd (replay_journal l cur acc)).
-Proof.
-  revert cur acc; induction l as [|b r IH]; intros cur acc Hs Hb; cbn [replay_journal]; [split; assumption|].
-  destruct (b_seq b <? cur) eqn:E; [apply IH; assumption|].
-  apply N.ltb_ge in E. apply IH.
-  - apply sorted_b_snoc; [exact Hs|]. intros a Ha. specialize (Hb a Ha). lia.
-  - intros x Hx. apply in_app_or in Hx as [Hx|[<-|[]]]; [specialize (Hb x Hx); nia|lia].
-Qed.
-
-Lemma replay_incl l cur acc b : In b (snd (replay_journal l cur acc)) -> In b acc \/ In b l.
-Proof.
-  revert cur acc; induction l as [|x r IH]; intros cur acc H; cbn [replay_journal] in H; [left; exact H|].
-  destruct (b_seq x <? cur).
-  - apply IH in H as [H|H]; [left; exact H|right; right; exact H].
-  - apply IH in H as [H|H]; [|right; right; exact H].
-    apply in_app_or in H as [H|[<-|[]]]; [left; exact H|right; left; reflexivity].
-Qed.
-
-Lemma chain_sorted lo l hi : chain lo l hi -> sorted_b l /\ below (hi + 1) l.
-Proof.
-  revert lo; induction l as [|b r IH]; intros lo H; cbn [chain] in H; [split; [exact I|intros ? []]|].
-  destruct H as (A & B & C). destruct (IH _ C) as [S Bl]. split.
-  - split; [|exact S]. intros y Hy. destruct (chain_in_bounds _ _ _ y C Hy). lia.
-  - intros y [<-|Hy]; [pose proof (chain_le _ _ _ C); lia|apply Bl; exact Hy].
+  - intros y Hy. apply in_app_or in Hy as [Hy|Hy]; [apply A; exact Hy|apply H3; [left; reflexivity|exact Hy]].
+  - apply IH; [exact B|exact H2|]. intros a b Ha Hb. apply H3; [right; exact Ha|exact Hb].
 Qed.
 
 (* ---- the invariant of reachable states ---- *)
-Definition jstart_ok (s : pstate) (fstart lstart : N) : Prop :=
+(* fc, lc: running numbers from which the frozen / the live journal's records are accepted *)
+Definition jstart_ok (s : pstate) (fc lc : N) : Prop :=
   match p_frozen s with
-  | Some f => chain fstart (j_recs f) lstart /\ j_num f + 1 = j_num (p_live s)
+  | Some f => gchain fc (j_recs f) lc /\ j_num f + 1 = j_num (p_live s) /\ p_fseq s <= lc /\
+              gchain fc (j_recs f) (p_fseq s + 1)
   | None => True
-  end /\ chain lstart (j_recs (p_live s)) (p_seq s).
+  end /\ gchain lc (j_recs (p_live s)) (p_seq s + 1).
 
-(* what replaying any manifest prefix that contains the durable one yields *)
-Definition man_ok (s : pstate) (fstart lstart : N) : Prop :=
+(* what replaying any manifest prefix that contains the durable one yields: tables that form a chain ending
+   at some t, with both t and the recorded sequence number not beyond the start of the journals to replay *)
+Definition man_ok (s : pstate) (fc lc : N) : Prop :=
   forall k, (p_msynced s <= k <= length (p_man s))%nat ->
     let es := firstn k (p_man s) in
     let jn := last_jn es 0 in let sq := last_sq es 0 in
-    chain 0 (mtabs es) sq /\ jn <= j_num (p_live s) /\
+    exists t, gchain 0 (mtabs es) t /\ t <= sq + 1 /\ jn <= j_num (p_live s) /\
     match p_frozen s with
-    | None => sq = lstart
+    | None => sq <= lc /\ t <= lc
     | Some f =>
         if p_fedit s
-        then (jn <= j_num f /\ sq = fstart) \/ (jn = j_num (p_live s) /\ sq = lstart /\ incl (j_recs f) (mtabs es))
-        else jn <= j_num f /\ sq = fstart
+        then (jn <= j_num f /\ sq <= fc /\ t <= fc) \/
+             (jn = j_num (p_live s) /\ sq <= lc /\ t <= lc /\ incl (j_recs f) (mtabs es))
+        else jn <= j_num f /\ sq <= fc /\ t <= fc
     end.
 
 Record pinv (s : pstate) : Prop := {
-  pi_starts : exists fstart lstart, jstart_ok s fstart lstart /\ man_ok s fstart lstart /\
-      (* when the flush edit has been appended, replaying the whole manifest reaches the live journal *)
+  pi_starts : exists fc lc, jstart_ok s fc lc /\ man_ok s fc lc /\
       (p_fedit s = true -> last_jn (p_man s) 0 = j_num (p_live s));
   pi_sync_le : (j_synced (p_live s) <= length (j_recs (p_live s)))%nat /\
                (p_msynced s <= length (p_man s))%nat /\ (1 <= p_msynced s)%nat;
@@ -215,35 +188,29 @@ Record pinv (s : pstate) : Prop := {
                          (exists f, p_frozen s = Some f /\ In b (j_recs f))) -> In b (p_issued s)
 }.
 
-Lemma firstn_incl_app {A} (l x : list A) k1 k2 b : (k1 <= k2)%nat -> (k1 <= length l)%nat ->
-  In b (firstn k1 l) -> In b (firstn k2 (l ++ x)).
-Proof.
-  intros H1 H2 Hb. destruct (firstn_le_app (l ++ x) k1 k2 H1) as [r ->].
-  rewrite (firstn_app_le l x k1 H2). apply in_or_app. left; exact Hb.
-Qed.
+Ltac psimp := unfold man_ok, jstart_ok in *;
+  cbn [p_live p_frozen p_fedit p_fseq p_man p_msynced p_seq p_issued p_acked j_num j_recs j_synced] in *.
 
 Lemma pinv_init : pinv p_init.
 Proof.
   constructor; cbn.
-  - exists 0, 0. split; [split; [exact I|reflexivity]|]. split; [|discriminate].
-    intros k Hk. cbn in Hk. assert (k = 1%nat) by lia. subst k. cbn. repeat split; lia.
+  - exists 0, 0. split; [split; [exact I|first [lia | (intros HH; discriminate HH)]]|]. split; [|discriminate].
+    intros k Hk. cbn in Hk. assert (k = 1%nat) by lia. subst k. cbn. exists 0. repeat split; first [lia | (intros HH; discriminate HH)].
   - lia.
   - discriminate.
   - intros b [].
   - intros b [[]|[[]|[f [H _]]]]. discriminate.
 Qed.
 
-(* each case of the step function preserves the invariant *)
 Lemma pinv_write s n sync : pinv s -> pinv (pstep s (PWrite n sync)).
 Proof.
   intros H0. pose proof H0 as [[fs [ls [[Hf Hl] [Hm Hj]]]] [S1 [S2 S3]] Hfe Ha Hi]. cbn [pstep].
-  destruct (n =? 0) eqn:En; [exact H0|].
-  apply N.eqb_neq in En.
+  destruct (n =? 0) eqn:En; [exact H0|]. apply N.eqb_neq in En.
   set (b := {| b_seq := p_seq s + 1; b_n := n |}).
-  constructor; cbn [p_live p_frozen p_fedit p_man p_msynced p_seq p_issued p_acked jappend j_num j_recs j_synced].
+  constructor; cbn [p_live p_frozen p_fedit p_fseq p_man p_msynced p_seq p_issued p_acked jappend j_num j_recs j_synced].
   - exists fs, ls. split; [split|split].
     + exact Hf.
-    + cbn [jappend j_recs]. apply chain_snoc; [exact Hl|reflexivity|cbn; lia].
+    + cbn [jappend j_recs]. eapply gchain_app; [exact Hl|]. cbn. repeat split; lia.
     + exact Hm.
     + exact Hj.
   - split; [|split; assumption]. rewrite app_length. cbn [length]. destruct sync; lia.
@@ -264,26 +231,29 @@ Qed.
 Lemma pinv_syncj s : pinv s -> pinv (pstep s PSyncJournal).
 Proof.
   intros [[fs [ls [[Hf Hl] [Hm Hj]]]] [S1 [S2 S3]] Hfe Ha Hi]. cbn [pstep].
-  constructor; cbn [p_live p_frozen p_fedit p_man p_msynced p_seq p_issued p_acked j_num j_recs j_synced].
+  constructor; cbn [p_live p_frozen p_fedit p_fseq p_man p_msynced p_seq p_issued p_acked j_num j_recs j_synced].
   - exists fs, ls. exact (conj (conj Hf Hl) (conj Hm Hj)).
   - split; [lia|split; assumption].
   - exact Hfe.
-  - intros x Hx. destruct (Ha x Hx) as [H1|[H1|H1]]; auto. left. rewrite firstn_all.
-    rewrite <- (firstn_skipn (j_synced (p_live s)) (j_recs (p_live s))). apply in_or_app. left; exact H1.
+  - intros x Hx. destruct (Ha x Hx) as [H1|[H1|H1]]; auto. left. rewrite firstn_all. eapply in_firstn; exact H1.
   - exact Hi.
 Qed.
 
-Ltac psimp := unfold man_ok, jstart_ok in *;
-  cbn [p_live p_frozen p_fedit p_man p_msynced p_seq p_issued p_acked j_num j_recs j_synced] in *.
+Lemma pinv_skip s n : pinv s -> pinv (pstep s (PSkipSeq n)).
+Proof.
+  intros [[fs [ls [[Hf Hl] [Hm Hj]]]] [S1 [S2 S3]] Hfe Ha Hi]. cbn [pstep].
+  constructor; cbn [p_live p_frozen p_fedit p_fseq p_man p_msynced p_seq p_issued p_acked j_num j_recs j_synced]; auto.
+  exists fs, ls. psimp. split; [split; [exact Hf|eapply gchain_weaken; [exact Hl|lia|lia]]|]. exact (conj Hm Hj).
+Qed.
 
 Lemma pinv_rotate s : pinv s -> pinv (pstep s PRotate).
 Proof.
   intros H0. pose proof H0 as [[fs [ls [[Hf Hl] [Hm Hj]]]] [S1 [S2 S3]] Hfe Ha Hi]. cbn [pstep].
   destruct (p_frozen s) as [f|] eqn:Fz; [exact H0|].
-  constructor; cbn [p_live p_frozen p_fedit p_man p_msynced p_seq p_issued p_acked j_num j_recs j_synced].
-  - exists ls, (p_seq s). split; [split; [split; [exact Hl|reflexivity]|reflexivity]|]. split; [|discriminate].
-    psimp. intros k Hk. specialize (Hm k Hk). rewrite Fz in Hm. cbn zeta in *.
-    destruct Hm as (M1 & M2 & M3). split; [exact M1|]. split; [lia|]. split; [exact M2|exact M3].
+  constructor; cbn [p_live p_frozen p_fedit p_fseq p_man p_msynced p_seq p_issued p_acked j_num j_recs j_synced].
+  - exists ls, (p_seq s + 1). psimp. split; [split; [split; [exact Hl|split; [reflexivity|split; [lia|exact Hl]]]|unfold gchain; lia]|]. split; [|discriminate].
+    intros k Hk. specialize (Hm k Hk). rewrite Fz in Hm. cbn zeta in *.
+    destruct Hm as (t & M1 & M0 & M2 & M3 & M4). exists t. split; [exact M1|]. split; [exact M0|]. split; [lia|]. auto.
   - split; [cbn; lia|split; assumption].
   - discriminate.
   - intros x Hx. destruct (Ha x Hx) as [H1|[[f [H1 _]]|H1]]; [|congruence|auto].
@@ -292,36 +262,31 @@ Proof.
     injection Hf' as <-. apply Hi. right; left; exact Hx.
 Qed.
 
-Lemma last_in_list (l : list batch) bl : last (map Some l) None = Some bl -> In bl l.
-Proof.
-  induction l as [|y l IH]; cbn [map last]; [discriminate|].
-  destruct l as [|z l']; cbn [map] in *; [intros H; injection H as <-; left; reflexivity|].
-  intros H. right. apply IH. exact H.
-Qed.
-
 Lemma pinv_flushedit s : pinv s -> pinv (pstep s PFlushEdit).
 Proof.
   intros H0. pose proof H0 as [[fs [ls [[Hf Hl] [Hm Hj]]]] [S1 [S2 S3]] Hfe Ha Hi]. cbn [pstep].
   destruct (p_frozen s) as [f|] eqn:Fz; [|exact H0].
   destruct (last (map Some (j_recs f)) None) as [bl|] eqn:L; [|exact H0].
   destruct (p_fedit s) eqn:Fe; [exact H0|].
-  destruct Hf as [Hfc Hfn].
-  assert (Hbl : b_last bl = ls) by (pose proof (chain_last _ _ _ Hfc) as X; rewrite L in X; exact X).
-  set (e := {| m_jnum := Some (j_num (p_live s)); m_seq := Some (b_last bl); m_tab := j_recs f |}).
-  assert (Full := Hm (length (p_man s)) (conj S2 (le_n _))). rewrite Fz, Fe, firstn_all in Full. cbn zeta in Full.
-  destruct Full as (F1 & F2 & F3 & F4).
-  constructor; cbn [p_live p_frozen p_fedit p_man p_msynced p_seq p_issued p_acked].
-  - exists fs, ls. split; [split; [split; assumption|exact Hl]|]. split.
+  destruct Hf as (Hfc & Hfn & Hfq & Hfe2).
+  set (e := {| m_jnum := Some (j_num (p_live s)); m_seq := Some (p_fseq s); m_tab := j_recs f |}).
+  assert (Full := Hm (length (p_man s)) (conj S2 (le_n _))). psimp. rewrite Fz, Fe, firstn_all in Full. cbn zeta in Full.
+  destruct Full as (t & F1 & F0 & F2 & F3 & F4 & F5).
+  constructor; cbn [p_live p_frozen p_fedit p_fseq p_man p_msynced p_seq p_issued p_acked].
+  - exists fs, ls. split; [split; [split; [exact Hfc|split; [assumption|split; assumption]]|exact Hl]|]. split.
     + psimp. intros k Hk. rewrite app_length in Hk. cbn [length] in Hk. cbn zeta.
       destruct (Nat.eq_dec k (length (p_man s) + 1)) as [->|Hne].
       * rewrite firstn_app_all by reflexivity. rewrite last_jn_app, last_sq_app, mtabs_app. cbn [e m_jnum m_seq].
-        rewrite !mtabs_single. cbn [e m_tab].
-        split; [rewrite Hbl; eapply chain_app; [rewrite F4 in F1; exact F1|exact Hfc]|].
-        split; [lia|]. right. split; [reflexivity|]. split; [exact Hbl|].
+        rewrite !mtabs_single. cbn [e m_tab]. exists (N.min ls (p_fseq s + 1)).
+        split.
+        { eapply gchain_app; [exact F1|]. destruct (N.min_spec ls (p_fseq s + 1)) as [[_ ->]|[_ ->]].
+          - eapply gchain_weaken; [exact Hfc|exact F5|lia].
+          - eapply gchain_weaken; [exact Hfe2|exact F5|lia]. }
+        split; [lia|]. split; [lia|]. right. split; [reflexivity|]. split; [exact Hfq|]. split; [lia|].
         intros x Hx. apply in_or_app. right; exact Hx.
       * rewrite firstn_app_le by lia. assert (Hk' : (p_msynced s <= k <= length (p_man s))%nat) by lia.
-        specialize (Hm k Hk'). rewrite Fz, Fe in Hm. cbn zeta in Hm. destruct Hm as (M1 & M2 & M3 & M4).
-        split; [exact M1|]. split; [exact M2|]. left. split; assumption.
+        specialize (Hm k Hk'). rewrite Fz, Fe in Hm. cbn zeta in Hm. destruct Hm as (t' & M1 & M0 & M2 & M3).
+        exists t'. split; [exact M1|]. split; [exact M0|]. split; [exact M2|]. left. exact M3.
     + intros _. rewrite last_jn_app. reflexivity.
   - split; [exact S1|]. split; [rewrite app_length; cbn; lia|exact S3].
   - intros _. congruence.
@@ -338,7 +303,7 @@ Qed.
 Lemma pinv_mansync s : pinv s -> pinv (pstep s PManSync).
 Proof.
   intros [[fs [ls [[Hf Hl] [Hm Hj]]]] [S1 [S2 S3]] Hfe Ha Hi]. cbn [pstep].
-  constructor; cbn [p_live p_frozen p_fedit p_man p_msynced p_seq p_issued p_acked].
+  constructor; cbn [p_live p_frozen p_fedit p_fseq p_man p_msynced p_seq p_issued p_acked].
   - exists fs, ls. split; [exact (conj Hf Hl)|]. split; [|exact Hj].
     psimp. intros k Hk. apply Hm. lia.
   - split; [exact S1|]. split; [lia|lia].
@@ -352,7 +317,7 @@ Lemma pinv_compact s : pinv s -> pinv (pstep s PCompactEdit).
 Proof.
   intros [[fs [ls [[Hf Hl] [Hm Hj]]]] [S1 [S2 S3]] Hfe Ha Hi]. cbn [pstep].
   set (e := {| m_jnum := None; m_seq := None; m_tab := [] |}).
-  constructor; cbn [p_live p_frozen p_fedit p_man p_msynced p_seq p_issued p_acked].
+  constructor; cbn [p_live p_frozen p_fedit p_fseq p_man p_msynced p_seq p_issued p_acked].
   - exists fs, ls. split; [exact (conj Hf Hl)|]. split.
     + psimp. intros k Hk. rewrite app_length in Hk. cbn [length] in Hk. cbn zeta.
       destruct (Nat.eq_dec k (length (p_man s) + 1)) as [->|Hne].
@@ -374,25 +339,22 @@ Proof.
   intros H0. pose proof H0 as [[fs [ls [[Hf Hl] [Hm Hj]]]] [S1 [S2 S3]] Hfe Ha Hi]. cbn [pstep].
   match goal with |- pinv (if ?c then _ else _) => destruct c eqn:Cond end; [|exact H0].
   destruct (p_frozen s) as [f|] eqn:Fz.
-  2:{ (* no frozen journal: the flag cannot be set *)
-      cbn in Cond. destruct (p_fedit s) eqn:Fe; [exfalso; apply (Hfe eq_refl); reflexivity|discriminate]. }
-  destruct Hf as [Hfc Hfn].
-  (* in both admissible situations every manifest prefix in range now points at the live journal's start *)
+  2:{ cbn in Cond. destruct (p_fedit s) eqn:Fe; [exfalso; apply (Hfe eq_refl); reflexivity|discriminate]. }
+  destruct Hf as (Hfc & Hfn & Hfq & Hfe2).
   assert (Key : forall k, (p_msynced s <= k <= length (p_man s))%nat ->
-            chain 0 (mtabs (firstn k (p_man s))) (last_sq (firstn k (p_man s)) 0) /\
-            last_jn (firstn k (p_man s)) 0 <= j_num (p_live s) /\ last_sq (firstn k (p_man s)) 0 = ls).
-  { intros k Hk. specialize (Hm k Hk). psimp. cbn zeta in Hm. rewrite Fz in Hm. destruct Hm as (M1 & M2 & M3).
-    split; [exact M1|]. split; [exact M2|].
+            exists t, gchain 0 (mtabs (firstn k (p_man s))) t /\ t <= last_sq (firstn k (p_man s)) 0 + 1 /\
+            last_jn (firstn k (p_man s)) 0 <= j_num (p_live s) /\ last_sq (firstn k (p_man s)) 0 <= ls /\ t <= ls).
+  { intros k Hk. specialize (Hm k Hk). psimp. cbn zeta in Hm. rewrite Fz in Hm. destruct Hm as (t & M1 & M0 & M2 & M3).
+    exists t. split; [exact M1|]. split; [exact M0|]. split; [exact M2|].
     apply orb_prop in Cond as [Cond|Cond].
-    - (* empty frozen journal: its start is the live journal's start *)
-      destruct (j_recs f) eqn:R; [|discriminate]. cbn in Hfc. subst ls.
-      destruct (p_fedit s); [destruct M3 as [[_ M3]|[_ [M3 _]]]; exact M3|destruct M3 as [_ M3]; exact M3].
+    - destruct (j_recs f) eqn:R; [|discriminate]. cbn in Hfc.
+      destruct (p_fedit s); [destruct M3 as [(_ & M3 & M4)|(_ & M3 & M4 & _)]; lia|destruct M3 as (_ & M3 & M4); lia].
     - apply andb_prop in Cond as [Fe Len]. rewrite Fe in M3. apply Nat.eqb_eq in Len.
       assert (k = length (p_man s)) by lia. subst k. rewrite firstn_all in *.
-      specialize (Hj Fe). destruct M3 as [[M3 _]|[_ [M3 _]]]; [lia|exact M3]. }
-  constructor; cbn [p_live p_frozen p_fedit p_man p_msynced p_seq p_issued p_acked].
+      specialize (Hj Fe). destruct M3 as [(M3 & _)|(_ & M3 & M4 & _)]; lia. }
+  constructor; cbn [p_live p_frozen p_fedit p_fseq p_man p_msynced p_seq p_issued p_acked].
   - exists fs, ls. split; [split; [exact I|exact Hl]|]. split; [|discriminate].
-    psimp. intros k Hk. cbn zeta. destruct (Key k Hk) as (K1 & K2 & K3). auto.
+    psimp. intros k Hk. cbn zeta. destruct (Key k Hk) as (t & K1 & K0 & K2 & K3 & K4). exists t. auto.
   - auto.
   - discriminate.
   - intros x Hx. destruct (Ha x Hx) as [H1|[[f' [Ef H1]]|H1]]; auto.
@@ -401,9 +363,9 @@ Proof.
     + destruct (j_recs f); [rewrite firstn_nil in H1; destruct H1|discriminate].
     + apply andb_prop in Cond as [Fe Len]. apply Nat.eqb_eq in Len. rewrite <- Len, firstn_all.
       assert (Full := Hm (length (p_man s)) (conj S2 (le_n _))). psimp. rewrite Fz, Fe, firstn_all in Full. cbn zeta in Full.
-      destruct Full as (_ & _ & [[F _]|[_ [_ F]]]).
+      destruct Full as (t & _ & _ & _ & [(F & _)|(_ & _ & _ & F)]).
       * specialize (Hj Fe). lia.
-      * apply F. rewrite <- (firstn_skipn (j_synced f) (j_recs f)). apply in_or_app. left; exact H1.
+      * apply F. eapply in_firstn; exact H1.
   - intros x [Hx|[Hx|[f' [Ef _]]]]; [apply Hi; left; exact Hx|apply Hi; right; left; exact Hx|discriminate].
 Qed.
 
@@ -413,18 +375,18 @@ Proof.
   destruct (p_frozen s) as [f|] eqn:Fz; [exact H0|].
   destruct (j_recs (p_live s)) as [|r0 rs] eqn:Lr; [|exact H0].
   destruct (n =? 0) eqn:En; [exact H0|]. apply N.eqb_neq in En.
-  cbn in Hl. subst ls.
+  cbn in Hl.
   set (b := {| b_seq := p_seq s + 1; b_n := n |}).
   set (e := {| m_jnum := None; m_seq := Some (p_seq s + n); m_tab := [b] |}).
   assert (Full := Hm (length (p_man s)) (conj S2 (le_n _))). psimp. rewrite Fz, firstn_all in Full. cbn zeta in Full.
-  destruct Full as (F1 & F2 & F3).
-  constructor; cbn [p_live p_frozen p_fedit p_man p_msynced p_seq p_issued p_acked].
-  - exists fs, (p_seq s + n). split; [split; [exact I|psimp; rewrite Lr; reflexivity]|]. split; [|discriminate].
+  destruct Full as (t & F1 & F0 & F2 & F3 & F4).
+  constructor; cbn [p_live p_frozen p_fedit p_fseq p_man p_msynced p_seq p_issued p_acked].
+  - exists fs, (p_seq s + n + 1). split; [split; [exact I|psimp; rewrite Lr; cbn; lia]|]. split; [|discriminate].
     psimp. intros k Hk. rewrite app_length in Hk. cbn [length] in Hk.
     assert (k = (length (p_man s) + 1)%nat) by lia. subst k. cbn zeta.
     rewrite firstn_app_all by reflexivity. rewrite last_jn_app, last_sq_app, mtabs_app, mtabs_single. cbn [e m_jnum m_seq m_tab].
-    split; [|split; [exact F2|reflexivity]].
-    eapply chain_app; [exact F1|]. rewrite F3. cbn. repeat split; lia.
+    exists (p_seq s + n + 1). split; [|split; [lia|split; [exact F2|split; lia]]].
+    eapply gchain_app; [exact F1|]. cbn. repeat split; lia.
   - split; [rewrite Lr; exact S1|]. rewrite app_length. cbn. lia.
   - discriminate.
   - intros x Hx. right; right.
@@ -440,6 +402,346 @@ Proof.
     + rewrite Lr in Hx. destruct Hx.
 Qed.
 
+(* ---- what any admissible image of a reachable state looks like to recovery ---- *)
+Lemma jprefix_recs j k : j_recs (jprefix j k) = firstn k (j_recs j).
+Proof. reflexivity. Qed.
+
+(* the replayed part of the frozen journal as recovery sees it *)
+Definition fz_of (jn : N) (img : image) : option jfile :=
+  match i_frozen img with
+  | Some f => if jn <=? j_num f then Some (all_synced f) else None
+  | None => None
+  end.
+
+Lemma image_decomp s img : pinv s -> is_image s img ->
+  exists jn sq tabs t c1 c2 fr lv,
+    replay_man (i_man img) 0 0 [] = (jn, sq, tabs) /\
+    lv = j_recs (i_live img) /\ fr = match fz_of jn img with Some f => j_recs f | None => [] end /\
+    gchain 0 tabs t /\ t <= sq + 1 /\ sq <= c1 /\ t <= c1 /\ gchain c1 fr c2 /\ gchain c2 lv (p_seq s + 1) /\
+    jn <= j_num (i_live img) /\
+    (forall f, fz_of jn img = Some f -> jn <= j_num f /\ j_num f + 1 = j_num (i_live img)) /\
+    (forall b, In b (p_acked s) -> In b tabs \/ In b fr \/ In b lv) /\
+    (forall b, In b tabs \/ In b fr \/ In b lv -> In b (p_issued s)) /\
+    tabs = mtabs (i_man img) /\ (1 <= length (i_man img))%nat /\
+    (forall b f, p_frozen s = Some f -> In b (firstn (j_synced f) (j_recs f)) -> In b tabs \/ In b fr) /\
+    (forall b, In b (mtabs (firstn (p_msynced s) (p_man s))) -> In b tabs).
+Proof.
+  intros [[fs [ls [[Hf Hl] [Hm Hj]]]] [S1 [S2 S3]] Hfe Ha Hi] [[kl [Hkl Il]] [Ifz [km [Hkm Im]]]].
+  rewrite Im, replay_man_eq. cbn [app].
+  rewrite (firstn_min_len (p_man s) km).
+  set (k := Nat.min km (length (p_man s))).
+  assert (Hk : (p_msynced s <= k <= length (p_man s))%nat) by (unfold k; lia).
+  specialize (Hm k Hk). cbn zeta in Hm. destruct Hm as (t & M1 & M0 & M2 & M3).
+  set (es := firstn k (p_man s)) in *.
+  set (jn := last_jn es 0) in *. set (sq := last_sq es 0) in *.
+  assert (Tissued : forall b, In b (mtabs es) -> In b (p_issued s)).
+  { intros b Hb. apply Hi. left. unfold es in Hb. rewrite <- (firstn_all (p_man s)).
+    eapply mtabs_firstn_incl; [|exact Hb]. lia. }
+  assert (TabsAck : forall b, In b (mtabs (firstn (p_msynced s) (p_man s))) -> In b (mtabs es)).
+  { intros b Hb. unfold es. eapply mtabs_firstn_incl; [|exact Hb]. lia. }
+  assert (LiveIss : forall b, In b (firstn kl (j_recs (p_live s))) -> In b (p_issued s)).
+  { intros b Hb. apply Hi. right; left. eapply in_firstn. exact Hb. }
+  assert (Len1 : (1 <= length es)%nat).
+  { unfold es. rewrite firstn_length. lia. }
+  assert (Liv : j_recs (i_live img) = firstn kl (j_recs (p_live s))) by (rewrite Il; reflexivity).
+  assert (LivN : j_num (i_live img) = j_num (p_live s)) by (rewrite Il; reflexivity).
+  unfold fz_of.
+  destruct (p_frozen s) as [f|] eqn:Fz.
+  - destruct Hf as (Hfc & Hfn & Hfq & Hfe2).
+    assert (Cases : (jn <= j_num f /\ sq <= fs /\ t <= fs) \/
+                    (jn = j_num (p_live s) /\ sq <= ls /\ t <= ls /\ incl (j_recs f) (mtabs es))).
+    { destruct (p_fedit s); [exact M3|left; exact M3]. }
+    destruct (i_frozen img) as [f'|] eqn:IF.
+    + destruct Ifz as [kf [Hkf ->]]. cbn [jprefix j_num].
+      destruct Cases as [(C1 & C2 & C3)|(C1 & C2 & C3 & C4)].
+      * exists jn, sq, (mtabs es), t, fs, ls, (firstn kf (j_recs f)), (firstn kl (j_recs (p_live s))).
+        replace (jn <=? j_num f) with true by (symmetry; apply N.leb_le; exact C1).
+        cbn [all_synced j_recs jprefix].
+        split; [reflexivity|]. split; [exact (eq_sym Liv)|]. split; [reflexivity|].
+        split; [exact M1|]. split; [exact M0|]. split; [exact C2|]. split; [exact C3|].
+        split; [apply gchain_firstn; exact Hfc|]. split; [apply gchain_firstn; exact Hl|].
+        split; [lia|]. split; [intros f0 E; injection E as <-; cbn; lia|].
+        split; [|split; [|split; [reflexivity|split; [exact Len1|split; [|exact TabsAck]]]]].
+        3:{ intros b f0 Ef H1. injection Ef as <-. right. eapply in_firstn_mono; [exact Hkf|exact H1]. }
+        { intros b Hb. destruct (Ha b Hb) as [H1|[[f0 [Ef H1]]|H1]].
+          - right; right. eapply in_firstn_mono; [exact Hkl|exact H1].
+          - injection Ef as <-. right; left. eapply in_firstn_mono; [exact Hkf|exact H1].
+          - left. apply TabsAck. exact H1. }
+        { intros b [Hb|[Hb|Hb]]; [apply Tissued; exact Hb| |apply LiveIss; exact Hb].
+          apply Hi. right; right. exists f. split; [reflexivity|eapply in_firstn; exact Hb]. }
+      * exists jn, sq, (mtabs es), t, ls, ls, [], (firstn kl (j_recs (p_live s))).
+        replace (jn <=? j_num f) with false by (symmetry; apply N.leb_gt; lia).
+        split; [reflexivity|]. split; [exact (eq_sym Liv)|]. split; [reflexivity|].
+        split; [exact M1|]. split; [exact M0|]. split; [exact C2|]. split; [exact C3|].
+        split; [cbn; lia|]. split; [apply gchain_firstn; exact Hl|].
+        split; [lia|]. split; [intros f0 E; discriminate|].
+        split; [|split; [|split; [reflexivity|split; [exact Len1|split; [|exact TabsAck]]]]].
+        3:{ intros b f0 Ef H1. injection Ef as <-. left. apply C4. eapply in_firstn. exact H1. }
+        { intros b Hb. destruct (Ha b Hb) as [H1|[[f0 [Ef H1]]|H1]].
+          - right; right. eapply in_firstn_mono; [exact Hkl|exact H1].
+          - injection Ef as <-. left. apply C4. eapply in_firstn. exact H1.
+          - left. apply TabsAck. exact H1. }
+        { intros b [Hb|[[]|Hb]]; [apply Tissued; exact Hb|apply LiveIss; exact Hb]. }
+    + (* the frozen journal file vanished: it had no durable record *)
+      assert (Sq : sq <= ls /\ t <= ls).
+      { destruct Cases as [(_ & C2 & C3)|(_ & C2 & C3 & _)]; [pose proof (gchain_le _ _ _ Hfc); lia|lia]. }
+      exists jn, sq, (mtabs es), t, ls, ls, [], (firstn kl (j_recs (p_live s))).
+      split; [reflexivity|]. split; [exact (eq_sym Liv)|]. split; [reflexivity|].
+      split; [exact M1|]. split; [exact M0|]. split; [apply Sq|]. split; [apply Sq|].
+      split; [cbn; lia|]. split; [apply gchain_firstn; exact Hl|].
+      split; [lia|]. split; [intros f0 E; discriminate|].
+      split; [|split; [|split; [reflexivity|split; [exact Len1|split; [|exact TabsAck]]]]].
+      3:{ intros b f0 Ef H1. injection Ef as <-. rewrite Ifz in H1. cbn in H1. destruct H1. }
+      { intros b Hb. destruct (Ha b Hb) as [H1|[[f0 [Ef H1]]|H1]].
+        - right; right. eapply in_firstn_mono; [exact Hkl|exact H1].
+        - injection Ef as <-. rewrite Ifz in H1. cbn in H1. destruct H1.
+        - left. apply TabsAck. exact H1. }
+      { intros b [Hb|[[]|Hb]]; [apply Tissued; exact Hb|apply LiveIss; exact Hb]. }
+  - destruct (i_frozen img) as [f'|]; [destruct Ifz|].
+    destruct M3 as [M3 M4].
+    exists jn, sq, (mtabs es), t, ls, ls, [], (firstn kl (j_recs (p_live s))).
+    split; [reflexivity|]. split; [exact (eq_sym Liv)|]. split; [reflexivity|].
+    split; [exact M1|]. split; [exact M0|]. split; [exact M3|]. split; [exact M4|].
+    split; [cbn; lia|]. split; [apply gchain_firstn; exact Hl|].
+    split; [lia|]. split; [intros f0 E; discriminate|].
+    split; [|split; [|split; [reflexivity|split; [exact Len1|split; [|exact TabsAck]]]]].
+    3:{ intros b f0 Ef H1. discriminate. }
+    { intros b Hb. destruct (Ha b Hb) as [H1|[[f0 [Ef H1]]|H1]].
+      - right; right. eapply in_firstn_mono; [exact Hkl|exact H1].
+      - discriminate.
+      - left. apply TabsAck. exact H1. }
+    { intros b [Hb|[[]|Hb]]; [apply Tissued; exact Hb|apply LiveIss; exact Hb]. }
+Qed.
+
+Lemma recover_full_eq img jn sq tabs : replay_man (i_man img) 0 0 [] = (jn, sq, tabs) ->
+  jn <= j_num (i_live img) ->
+  recover_full img =
+    let st1 := match fz_of jn img with Some f => replay_journal (j_recs f) sq tabs | None => (sq, tabs) end in
+    replay_journal (j_recs (i_live img)) (fst st1) (snd st1).
+Proof.
+  intros E Hl. unfold recover_full, fz_of. rewrite E.
+  assert (L : (jn <=? j_num (i_live img)) = true) by (apply N.leb_le; exact Hl).
+  destruct (i_frozen img) as [f|]; cbn [app filter].
+  - destruct (jn <=? j_num f); rewrite L; cbn [fold_left fst snd all_synced j_recs]; reflexivity.
+  - rewrite L. cbn [fold_left fst snd]. reflexivity.
+Qed.
+
+(* Crash safety: for every history of the model — writes with or without sync, failed writes, rotations,
+   flushes split into their crash points, transaction commits, compaction edits, and crashes followed by
+   recovery (whose own steps are again crash points) — and every admissible crash image of the state it reaches,
+   recovery yields a list of batches that (1) contains every batch acknowledged as durable, (2) contains only
+   issued batches, (3) is strictly ordered by sequence number: the recovered contents are those of a subset of
+   the issued batches applied in their original order, each entirely present or entirely absent. *)
+Theorem crash_safe_inv s img : pinv s -> is_image s img ->
+  (forall b, In b (p_acked s) -> In b (recover img)) /\
+  (forall b, In b (recover img) -> In b (p_issued s)) /\
+  sorted_b (recover img).
+Proof.
+  intros Hi Him.
+  destruct (image_decomp s img Hi Him) as (jn & sq & tabs & t & c1 & c2 & fr & lv & E & Elv & Efr & G0 & T0 & Q1 & T1 & G1 & G2 & JL & FZ & Ack & Iss & _ & _ & _ & _).
+  unfold recover. rewrite (recover_full_eq img jn sq tabs E JL). cbn zeta.
+  assert (R1 : snd (match fz_of jn img with Some f => replay_journal (j_recs f) sq tabs | None => (sq, tabs) end) = tabs ++ fr /\
+               fst (match fz_of jn img with Some f => replay_journal (j_recs f) sq tabs | None => (sq, tabs) end) <= c2).
+  { destruct (fz_of jn img) as [f|]; subst fr.
+    - destruct (replay_gchain (j_recs f) sq c2 tabs ltac:(eapply gchain_weaken; [exact G1|exact Q1|lia])) as (A & B & _). split; assumption.
+    - cbn [fst snd]. rewrite app_nil_r. split; [reflexivity|]. cbn in G1. lia. }
+  destruct R1 as [R1 R1b].
+  destruct (match fz_of jn img with Some f => replay_journal (j_recs f) sq tabs | None => (sq, tabs) end) as [q1 a1].
+  cbn [fst snd] in *. subst a1. rewrite <- Elv.
+  destruct (replay_gchain lv q1 (p_seq s + 1) (tabs ++ fr) ltac:(eapply gchain_weaken; [exact G2|exact R1b|lia])) as (A & _ & _).
+  rewrite A. split; [|split].
+  - intros b Hb. destruct (Ack b Hb) as [H|[H|H]]; apply in_or_app; [left; apply in_or_app; left; exact H|left; apply in_or_app; right; exact H|right; exact H].
+  - intros b Hb. apply Iss. apply in_app_or in Hb as [Hb|Hb]; [apply in_app_or in Hb as [Hb|Hb]; auto|auto].
+  - destruct (gchain_sorted _ _ _ G0) as [S0 B0]. destruct (gchain_sorted _ _ _ G1) as [S1 B1]. destruct (gchain_sorted _ _ _ G2) as [S2 _].
+    apply sorted_b_app; [apply sorted_b_app; [exact S0|exact S1|]|exact S2|].
+    + intros a b Ha Hb. specialize (B0 a Ha). destruct (gchain_in _ _ _ b G1 Hb) as (P & _ & _). lia.
+    + intros a b Ha Hb. destruct (gchain_in _ _ _ b G2 Hb) as (P & _ & _).
+      apply in_app_or in Ha as [Ha|Ha].
+      * specialize (B0 a Ha). pose proof (gchain_le _ _ _ G1). lia.
+      * specialize (B1 a Ha). lia.
+Qed.
+
+(* ---- a crash followed by the in-memory part of recovery re-establishes the invariant ---- *)
+Lemma replay_tight l : forall c e c' acc, gchain c l e -> c' <= c ->
+  l <> [] -> gchain c' l (fst (replay_journal l c' acc)).
+Proof.
+  induction l as [|b r IH]; intros c e c' acc H Hc Hne; [congruence|].
+  cbn [gchain replay_journal] in *. destruct H as (A & B & C).
+  replace (b_seq b <? c') with false by (symmetry; apply N.ltb_ge; lia).
+  split; [lia|]. split; [exact B|].
+  destruct r as [|b2 r'].
+  - cbn. lia.
+  - apply (IH _ _ _ (acc ++ [b]) C); [lia|discriminate].
+Qed.
+
+Lemma replay_nil c acc : replay_journal [] c acc = (c, acc).
+Proof. reflexivity. Qed.
+
+Lemma gchain_rebase l : forall c c' e, gchain c l e ->
+  (forall b, hd_error l = Some b -> c' <= b_seq b) -> (l = [] -> c' <= e) -> gchain c' l e.
+Proof.
+  intros c c' e H H1 H2. destruct l as [|b r]; cbn [gchain] in *.
+  - apply H2. reflexivity.
+  - destruct H as (A & B & C). split; [apply H1; reflexivity|]. split; assumption.
+Qed.
+
+Lemma mk_image_is_image s kl kf km : pinv s -> is_image s (mk_image s kl kf km).
+Proof.
+  intros [_ [S1 [S2 S3]] _ _ _]. unfold is_image, mk_image; cbn [i_live i_frozen i_man].
+  split; [|split].
+  - exists (Nat.max kl (j_synced (p_live s))). split; [lia|reflexivity].
+  - destruct (p_frozen s) as [f|]; cbn [option_map]; [|exact I].
+    exists (Nat.max kf (j_synced f)). split; [lia|reflexivity].
+  - exists (Nat.max km (p_msynced s)). split; [lia|reflexivity].
+Qed.
+
+Definition fzm (jn : N) (img : image) (dur : bool) : option jfile :=
+  match i_frozen img with
+  | Some f => if jn <=? j_num f then Some (if dur then all_synced f else f) else None
+  | None => None
+  end.
+
+Lemma fzm_recs jn img dur :
+  match fzm jn img dur with Some f => j_recs f | None => [] end =
+  match fz_of jn img with Some f => j_recs f | None => [] end.
+Proof.
+  unfold fzm, fz_of. destruct (i_frozen img) as [f|]; [|reflexivity].
+  destruct (jn <=? j_num f); [|reflexivity]. destruct dur; reflexivity.
+Qed.
+
+Lemma fzm_some jn img dur f : fzm jn img dur = Some f ->
+  exists f0, fz_of jn img = Some (all_synced f0) /\ i_frozen img = Some f0 /\ f = (if dur then all_synced f0 else f0).
+Proof.
+  unfold fzm, fz_of. destruct (i_frozen img) as [f0|]; [|discriminate].
+  destruct (jn <=? j_num f0); [|discriminate]. intros H; injection H as <-. exists f0. auto.
+Qed.
+
+(* the general restart lemma: dur = true after a crash (any admissible image), dur = false for a clean reopen
+   (full image, every manifest edit synced) *)
+Lemma pinv_restart_gen s img dur : pinv s -> is_image s img ->
+  (dur = false -> img = full_image s /\ length (p_man s) = p_msynced s) ->
+  pinv (restart_state s img dur).
+Proof.
+  intros Hinv Him Hdur.
+  destruct (image_decomp s img Hinv Him) as (jn & sq & tabs & t & c1 & c2 & fr & lv & E & Elv & Efr & G0 & T0 & Q1 & T1 & G1 & G2 & JL & FZ & Ack & Iss & Etabs & Len1 & FrozAck & TabsAck).
+  pose proof Hinv as [_ [S1 [S2 S3]] _ Ha _].
+  unfold restart_state. rewrite E. fold (fzm jn img dur).
+  rewrite <- (fzm_recs jn img dur) in Efr.
+  set (T := N.max sq t).
+  assert (HT : T <= c1 /\ sq <= T /\ t <= T /\ T <= sq + 1) by (unfold T; lia).
+  destruct HT as (HT1 & HT2 & HT3 & HT4).
+  pose proof (gchain_le _ _ _ G1) as C12.
+  assert (Q : exists q1 a1, match fzm jn img dur with Some f => replay_journal (j_recs f) sq tabs | None => (sq, tabs) end = (q1, a1) /\
+              sq <= q1 /\ q1 <= c2 /\ a1 = tabs ++ fr /\ gchain T fr (N.max T q1)).
+  { destruct (fzm jn img dur) as [f|] eqn:EF; subst fr.
+    - destruct (replay_gchain (j_recs f) sq c2 tabs ltac:(eapply gchain_weaken; [exact G1|exact Q1|lia])) as (A & B & C).
+      destruct (replay_journal (j_recs f) sq tabs) as [q1 a1] eqn:ER. cbn [fst snd] in *.
+      exists q1, a1. split; [reflexivity|]. split; [exact C|]. split; [exact B|]. split; [exact A|].
+      destruct (j_recs f) as [|b0 r0] eqn:ERecs.
+      + cbn. lia.
+      + assert (TG : gchain sq (b0 :: r0) q1).
+        { pose proof (replay_tight (b0 :: r0) c1 c2 sq tabs G1 Q1 ltac:(discriminate)) as X. rewrite ER in X. exact X. }
+        eapply gchain_weaken; [eapply (gchain_rebase _ sq T); [exact TG| |discriminate]|apply N.le_refl|lia].
+        intros b Hb. cbn in Hb. injection Hb as <-. cbn in G1. lia.
+    - exists sq, tabs. rewrite app_nil_r. split; [reflexivity|]. cbn in G1. cbn. repeat split; lia. }
+  destruct Q as (q1 & a1 & EQ & Q0 & Q2 & Q3 & GF). rewrite EQ. cbn [fst snd]. subst a1.
+  set (A := N.max T q1) in *.
+  assert (HA : A <= c2) by (unfold A; lia).
+  rewrite <- Elv.
+  destruct (replay_gchain lv q1 (p_seq s + 1) (tabs ++ fr) ltac:(eapply gchain_weaken; [exact G2|exact Q2|lia])) as (RA & RB & RC).
+  destruct (replay_journal lv q1 (tabs ++ fr)) as [q2 a2] eqn:ER2. cbn [fst snd] in *.
+  assert (GL : gchain A lv (q2 + 1)).
+  { destruct lv as [|b0 r0] eqn:ELv.
+    - cbn in ER2. injection ER2 as <- _. cbn. unfold A. lia.
+    - pose proof (replay_tight (b0 :: r0) c2 (p_seq s + 1) q1 (tabs ++ fr) G2 Q2 ltac:(discriminate)) as X.
+      rewrite ER2 in X. cbn [fst] in X.
+      eapply gchain_weaken; [eapply (gchain_rebase _ q1 A); [exact X| |discriminate]|apply N.le_refl|lia].
+      intros b Hb. cbn in Hb. injection Hb as <-. cbn in G2. lia. }
+  assert (MarkN : forall j : jfile, j_num (if dur then all_synced j else j) = j_num j) by (intros j; destruct dur; reflexivity).
+  assert (MarkR : forall j : jfile, j_recs (if dur then all_synced j else j) = j_recs j) by (intros j; destruct dur; reflexivity).
+  assert (Msync : (if dur then length (i_man img) else p_msynced s) = length (i_man img)).
+  { destruct dur; [reflexivity|]. destruct (Hdur eq_refl) as [-> Hl]. cbn. lia. }
+  constructor; cbn [p_live p_frozen p_fedit p_fseq p_man p_msynced p_seq p_issued p_acked].
+  - exists T, A. split; [|split; [|discriminate]].
+    + unfold jstart_ok; cbn [p_live p_frozen p_fseq p_seq]. rewrite MarkR, MarkN.
+      split; [|rewrite <- Elv; exact GL].
+      destruct (fzm jn img dur) as [f|] eqn:EF; [|exact I].
+      destruct (fzm_some _ _ _ _ EF) as (f0 & EF0 & IF0 & Ef).
+      destruct (FZ _ EF0) as [F1 F2]. cbn [all_synced j_num] in F1, F2.
+      assert (Nf : j_num f = j_num f0) by (subst f; destruct dur; reflexivity).
+      rewrite <- Efr. split; [exact GF|]. split; [lia|]. split; [unfold A; lia|].
+      eapply gchain_weaken; [exact GF|apply N.le_refl|unfold A; lia].
+    + unfold man_ok; cbn [p_live p_frozen p_fedit p_man p_msynced]. rewrite Msync, MarkN.
+      intros k Hk. assert (k = length (i_man img)) by lia. subst k. rewrite firstn_all. cbn zeta.
+      rewrite replay_man_eq in E. cbn [app] in E. injection E as E1 E2 E3.
+      assert (X1 : last_jn (i_man img) 0 = jn) by exact E1.
+      assert (X2 : last_sq (i_man img) 0 = sq) by exact E2.
+      assert (X3 : mtabs (i_man img) = tabs) by exact E3.
+      rewrite X1, X2, X3. exists t. split; [exact G0|]. split; [exact T0|]. split; [exact JL|].
+      destruct (fzm jn img dur) as [f|] eqn:EF.
+      * destruct (fzm_some _ _ _ _ EF) as (f0 & EF0 & IF0 & Ef).
+        destruct (FZ _ EF0) as [F1 F2]. cbn [all_synced j_num] in F1.
+        assert (Nf : j_num f = j_num f0) by (subst f; destruct dur; reflexivity).
+        repeat split; [lia|assumption|assumption].
+      * split; unfold A; lia.
+  - rewrite Msync. split; [|split; [lia|exact Len1]].
+    destruct dur; [cbn; lia|]. destruct (Hdur eq_refl) as [-> _]. cbn. exact S1.
+  - discriminate.
+  - intros b Hb. rewrite Msync, firstn_all, <- Etabs.
+    destruct dur.
+    + (* after a crash everything found is durable *)
+      destruct (Ack b Hb) as [H|[H|H]].
+      * right; right. exact H.
+      * right; left. destruct (fzm jn img true) as [f|] eqn:EF; [|subst fr; destruct H].
+        exists f. split; [reflexivity|].
+        destruct (fzm_some _ _ _ _ EF) as (f0 & _ & _ & ->). cbn [all_synced j_synced j_recs]. rewrite firstn_all.
+        rewrite Efr in H. cbn [all_synced j_recs] in H. exact H.
+      * left. cbn [all_synced j_synced j_recs]. rewrite firstn_all, <- Elv. exact H.
+    + (* clean reopen: files and sync marks unchanged *)
+      destruct (Hdur eq_refl) as [Eimg Hl].
+      destruct (Ha b Hb) as [H1|[[f0 [Ef H1]]|H1]].
+      * left. rewrite Eimg. cbn. exact H1.
+      * destruct (FrozAck b f0 Ef H1) as [H|H]; [right; right; exact H|].
+        right; left. destruct (fzm jn img false) as [f|] eqn:EF; [|subst fr; destruct H].
+        exists f. split; [reflexivity|].
+        destruct (fzm_some _ _ _ _ EF) as (f1 & _ & IF1 & ->).
+        rewrite Eimg in IF1. cbn in IF1. rewrite Ef in IF1. injection IF1 as <-. exact H1.
+      * right; right. apply TabsAck. exact H1.
+  - intros b Hb. apply Iss. destruct Hb as [Hb|[Hb|[f [Ef Hb]]]].
+    + left. rewrite Etabs. exact Hb.
+    + right; right. rewrite Elv. rewrite MarkR in Hb. exact Hb.
+    + right; left. rewrite Efr, Ef. exact Hb.
+Qed.
+
+Lemma pinv_restart s kl kf km : pinv s -> pinv (pstep s (PRestart kl kf km)).
+Proof.
+  intros H. cbn [pstep]. apply pinv_restart_gen; [exact H|apply mk_image_is_image; exact H|discriminate].
+Qed.
+
+Lemma jprefix_full j : (j_synced j <= length (j_recs j))%nat -> jprefix j (length (j_recs j)) = j.
+Proof.
+  intros H. unfold jprefix. rewrite firstn_all. replace (Nat.min (length (j_recs j)) (j_synced j)) with (j_synced j) by lia.
+  destruct j; reflexivity.
+Qed.
+
+Lemma pinv_reopen s : pinv s -> pinv (pstep s PReopen).
+Proof.
+  intros H. cbn [pstep]. destruct (Nat.eqb (length (p_man s)) (p_msynced s)) eqn:E; [|exact H].
+  apply Nat.eqb_eq in E.
+  apply pinv_restart_gen; [exact H| |intros _; split; [reflexivity|exact E]].
+  (* the full image is admissible *)
+  pose proof H as [[fs [ls [[Hf _] _]]] [S1 [S2 S3]] _ _ _].
+  unfold is_image, full_image; cbn [i_live i_frozen i_man].
+  split; [|split].
+  - exists (length (j_recs (p_live s))). split; [exact S1|]. symmetry. apply jprefix_full. exact S1.
+  - destruct (p_frozen s) as [f|] eqn:Fz; [|exact I].
+    (* the frozen journal's sync mark is within its records: it was the live journal when it was written *)
+    exists (Nat.max (length (j_recs f)) (j_synced f)). split; [lia|].
+    unfold jprefix. destruct f as [n r sy]; cbn [j_num j_recs j_synced].
+    rewrite firstn_all2 by lia. f_equal. lia.
+  - exists (length (p_man s)). split; [exact S2|]. rewrite firstn_all. reflexivity.
+Qed.
+
 Lemma pinv_step s o : pinv s -> pinv (pstep s o).
 Proof.
   intros H. destruct o.
@@ -451,6 +753,9 @@ Proof.
   - apply pinv_drop; exact H.
   - apply pinv_txn; exact H.
   - apply pinv_compact; exact H.
+  - apply pinv_skip; exact H.
+  - apply pinv_restart; exact H.
+  - apply pinv_reopen; exact H.
 Qed.
 
 Lemma pinv_run ops : pinv (prun ops).
@@ -460,157 +765,15 @@ Proof.
   apply G. apply pinv_init.
 Qed.
 
-(* ---- recovery of an image ---- *)
-Lemma firstn_min_len {A} (l : list A) k : firstn k l = firstn (Nat.min k (length l)) l.
-Proof.
-  destruct (Nat.le_gt_cases k (length l)) as [H|H].
-  - replace (Nat.min k (length l)) with k by lia. reflexivity.
-  - replace (Nat.min k (length l)) with (length l) by lia. rewrite firstn_all. apply firstn_all2. lia.
-Qed.
-
-Lemma jprefix_recs j k : j_recs (jprefix j k) = firstn k (j_recs j).
-Proof. reflexivity. Qed.
-
-Lemma in_firstn {A} (l : list A) k x : In x (firstn k l) -> In x l.
-Proof. intros H. rewrite <- (firstn_skipn k l). apply in_or_app. left; exact H. Qed.
-
-Lemma in_firstn_mono {A} (l : list A) k1 k2 x : (k1 <= k2)%nat -> In x (firstn k1 l) -> In x (firstn k2 l).
-Proof. intros H Hx. destruct (firstn_le_app l k1 k2 H) as [r ->]. apply in_or_app. left; exact Hx. Qed.
-
-Lemma sorted_b_app l1 l2 : sorted_b l1 -> sorted_b l2 ->
-  (forall a b, In a l1 -> In b l2 -> b_seq a + b_n a <= b_seq b) -> sorted_b (l1 ++ l2).
-Proof.
-  induction l1 as [|x r IH]; intros H1 H2 H3; cbn [app sorted_b] in *; [exact H2|].
-  destruct H1 as [A B]. split.
-  - intros y Hy. apply in_app_or in Hy as [Hy|Hy]; [apply A; exact Hy|apply H3; [left; reflexivity|exact Hy]].
-  - apply IH; [exact B|exact H2|]. intros a b Ha Hb. apply H3; [right; exact Ha|exact Hb].
-Qed.
-
-Lemma sorted_b_firstn l k : sorted_b l -> sorted_b (firstn k l).
-Proof.
-  revert k; induction l as [|x r IH]; intros [|k] H; cbn [firstn sorted_b] in *; auto.
-  destruct H as [A B]. split; [|apply IH; exact B]. intros y Hy. apply A. eapply in_firstn; exact Hy.
-Qed.
-
-(* tables followed by a prefix of a journal chain that starts at or after the tables' end *)
-Lemma sorted_tabs_journal tabs sq a X b k : chain 0 tabs sq -> sq <= a -> chain a X b ->
-  sorted_b (tabs ++ firstn k X).
-Proof.
-  intros H1 H2 H3. destruct (chain_sorted _ _ _ H1) as [S1 B1]. destruct (chain_sorted _ _ _ H3) as [S3 _].
-  apply sorted_b_app; [exact S1|apply sorted_b_firstn; exact S3|].
-  intros x y Hx Hy. specialize (B1 x Hx). apply in_firstn in Hy.
-  destruct (chain_in_bounds _ _ _ y H3 Hy) as (P & _ & _). lia.
-Qed.
-
-(* Crash safety: for every history of the model and every admissible crash image of the state it reaches,
-   recovery (manifest replay, then journal replay with the sequence check) yields a list of batches that
-   (1) contains every batch acknowledged as durable, (2) contains only issued batches, (3) is strictly
-   ordered by sequence number — i.e. the recovered contents are what a subset of the issued batches, applied
-   in their original order, each at most once, produces. *)
 Theorem crash_safe ops img : is_image (prun ops) img ->
   (forall b, In b (p_acked (prun ops)) -> In b (recover img)) /\
   (forall b, In b (recover img) -> In b (p_issued (prun ops))) /\
   sorted_b (recover img).
-Proof.
-  set (s := prun ops). intros [[kl [Hkl Il]] [Ifz [km [Hkm Im]]]].
-  destruct (pinv_run ops) as [[fs [ls [[Hf Hl] [Hm Hj]]]] [S1 [S2 S3]] Hfe Ha Hi]. fold s in Hf, Hl, Hm, Hj, S1, S2, S3, Hfe, Ha, Hi.
-  unfold recover. rewrite Im, replay_man_eq. cbn [app].
-  rewrite (firstn_min_len (p_man s) km).
-  set (k := Nat.min km (length (p_man s))).
-  assert (Hk : (p_msynced s <= k <= length (p_man s))%nat) by (unfold k; lia).
-  specialize (Hm k Hk). cbn zeta in Hm. destruct Hm as (M1 & M2 & M3).
-  set (es := firstn k (p_man s)) in *.
-  set (jn := last_jn es 0) in *. set (sq := last_sq es 0) in *.
-  rewrite Il.
-  assert (Tissued : forall b, In b (mtabs es) -> In b (p_issued s)).
-  { intros b Hb. apply Hi. left. unfold es in Hb. rewrite <- (firstn_all (p_man s)).
-    eapply mtabs_firstn_incl; [|exact Hb]. lia. }
-  assert (TabsAck : forall b, In b (mtabs (firstn (p_msynced s) (p_man s))) -> In b (mtabs es)).
-  { intros b Hb. unfold es. eapply mtabs_firstn_incl; [|exact Hb]. lia. }
-  assert (LiveIss : forall b, In b (firstn kl (j_recs (p_live s))) -> In b (p_issued s)).
-  { intros b Hb. apply Hi. right; left. eapply in_firstn. exact Hb. }
-  (* the common ending when only the live journal is replayed, starting at sq <= ls *)
-  assert (OnlyLive : sq <= ls ->
-    (forall b, In b (p_acked s) -> In b (firstn (j_synced (p_live s)) (j_recs (p_live s))) \/ In b (mtabs es)) ->
-    let r := snd (replay_journal (firstn kl (j_recs (p_live s))) sq (mtabs es)) in
-    (forall b, In b (p_acked s) -> In b r) /\ (forall b, In b r -> In b (p_issued s)) /\ sorted_b r).
-  { intros Sq AckIn r.
-    assert (GL : ge_chain sq (firstn kl (j_recs (p_live s)))).
-    { apply ge_chain_firstn. eapply chain_ge_chain; [exact Hl|lia]. }
-    pose proof (replay_accepts _ sq (mtabs es) GL) as RL. unfold r. rewrite RL.
-    split; [|split].
-    - intros b Hb. destruct (AckIn b Hb) as [H1|H1]; apply in_or_app;
-        [right; eapply in_firstn_mono; [exact Hkl|exact H1]|left; exact H1].
-    - intros b Hb. apply in_app_or in Hb as [Hb|Hb]; [apply Tissued; exact Hb|apply LiveIss; exact Hb].
-    - eapply sorted_tabs_journal; [exact M1|exact Sq|exact Hl]. }
-  destruct (p_frozen s) as [f|] eqn:Fz.
-  - (* a frozen journal exists *)
-    destruct Hf as [Hfc Hfn].
-    assert (Cases : (jn <= j_num f /\ sq = fs) \/ (jn = j_num (p_live s) /\ sq = ls /\ incl (j_recs f) (mtabs es))).
-    { destruct (p_fedit s); [exact M3|left; exact M3]. }
-    destruct (i_frozen img) as [f'|] eqn:IF.
-    + destruct Ifz as [kf [Hkf ->]].
-      destruct Cases as [[C1 C2]|[C1 [C2 C3]]].
-      * (* both journals are replayed *)
-        cbn [app filter]. cbn [jprefix j_num].
-        replace (jn <=? j_num f) with true by (symmetry; apply N.leb_le; exact C1).
-        replace (jn <=? j_num (p_live s)) with true by (symmetry; apply N.leb_le; exact M2).
-        cbn [fold_left fst snd j_recs jprefix].
-        assert (GF : ge_chain sq (firstn kf (j_recs f))).
-        { apply ge_chain_firstn. eapply chain_ge_chain; [exact Hfc|lia]. }
-        pose proof (replay_accepts _ sq (mtabs es) GF) as RA.
-        pose proof (replay_cur_bound fs (j_recs f) ls sq (mtabs es) Hfc ltac:(lia) kf) as RC.
-        destruct (replay_journal (firstn kf (j_recs f)) sq (mtabs es)) as [c1 a1] eqn:E1. cbn [fst snd] in *. subst a1.
-        assert (GL : ge_chain c1 (firstn kl (j_recs (p_live s)))).
-        { apply ge_chain_firstn. eapply chain_ge_chain; [exact Hl|exact RC]. }
-        rewrite (replay_accepts _ c1 (mtabs es ++ firstn kf (j_recs f)) GL).
-        split; [|split].
-        { intros b Hb. destruct (Ha b Hb) as [H1|[[f0 [Ef H1]]|H1]].
-          - apply in_or_app. right. eapply in_firstn_mono; [exact Hkl|exact H1].
-          - injection Ef as <-. apply in_or_app. left. apply in_or_app. right. eapply in_firstn_mono; [exact Hkf|exact H1].
-          - apply in_or_app. left. apply in_or_app. left. apply TabsAck. exact H1. }
-        { intros b Hb. apply in_app_or in Hb as [Hb|Hb]; [|apply LiveIss; exact Hb].
-          apply in_app_or in Hb as [Hb|Hb]; [apply Tissued; exact Hb|].
-          apply Hi. right; right. exists f. split; [reflexivity|eapply in_firstn; exact Hb]. }
-        { destruct (chain_sorted _ _ _ Hl) as [SL _].
-          apply sorted_b_app; [eapply sorted_tabs_journal; [exact M1| |exact Hfc]; lia|apply sorted_b_firstn; exact SL|].
-          intros x y Hx Hy. apply in_firstn in Hy. destruct (chain_in_bounds _ _ _ y Hl Hy) as (P & _ & _).
-          apply in_app_or in Hx as [Hx|Hx].
-          - destruct (chain_sorted _ _ _ M1) as [_ TB]. specialize (TB x Hx). pose proof (chain_le _ _ _ Hfc). lia.
-          - apply in_firstn in Hx. destruct (chain_in_bounds _ _ _ x Hfc Hx) as (_ & Q & _). lia. }
-      * (* the manifest prefix already contains the flush edit: only the live journal is replayed *)
-        cbn [app filter]. cbn [jprefix j_num].
-        replace (jn <=? j_num f) with false by (symmetry; apply N.leb_gt; lia).
-        replace (jn <=? j_num (p_live s)) with true by (symmetry; apply N.leb_le; exact M2).
-        cbn [fold_left fst snd j_recs jprefix].
-        apply OnlyLive; [lia|]. intros b Hb. destruct (Ha b Hb) as [H1|[[f0 [Ef H1]]|H1]]; [left; exact H1| |right; apply TabsAck; exact H1].
-        injection Ef as <-. right. apply C3. eapply in_firstn. exact H1.
-    + (* the frozen journal file vanished: it had no durable record *)
-      cbn [app filter]. cbn [jprefix j_num].
-      replace (jn <=? j_num (p_live s)) with true by (symmetry; apply N.leb_le; exact M2).
-      cbn [fold_left fst snd j_recs jprefix].
-      apply OnlyLive.
-      * destruct Cases as [[_ C2]|[_ [C2 _]]]; [pose proof (chain_le _ _ _ Hfc); lia|lia].
-      * intros b Hb. destruct (Ha b Hb) as [H1|[[f0 [Ef H1]]|H1]]; [left; exact H1| |right; apply TabsAck; exact H1].
-        injection Ef as <-. rewrite Ifz in H1. cbn in H1. destruct H1.
-  - (* no frozen journal *)
-    destruct (i_frozen img) as [f'|]; [destruct Ifz|].
-    cbn [app filter]. cbn [jprefix j_num].
-    replace (jn <=? j_num (p_live s)) with true by (symmetry; apply N.leb_le; exact M2).
-    cbn [fold_left fst snd j_recs jprefix].
-    apply OnlyLive; [lia|]. intros b Hb. destruct (Ha b Hb) as [H1|[[f0 [Ef H1]]|H1]]; [left; exact H1|discriminate|right; apply TabsAck; exact H1].
-Qed.
+Proof. apply crash_safe_inv. apply pinv_run. Qed.
 
 (* the image that keeps everything written (a clean close) is admissible *)
 Lemma clean_close_is_image : forall s, pinv s ->
   is_image s (mk_image s (length (j_recs (p_live s)))
                          (match p_frozen s with Some f => length (j_recs f) | None => 0 end)
                          (length (p_man s))).
-Proof.
-  intros s [_ [S1 [S2 S3]] _ _ _]. unfold is_image, mk_image; cbn [i_live i_frozen i_man].
-  split; [|split].
-  - exists (Nat.max (length (j_recs (p_live s))) (j_synced (p_live s))). split; [lia|reflexivity].
-  - destruct (p_frozen s) as [f|]; cbn [option_map]; [|exact I].
-    exists (Nat.max (length (j_recs f)) (j_synced f)). split; [lia|reflexivity].
-  - exists (Nat.max (length (p_man s)) (p_msynced s)). split; [lia|reflexivity].
-Qed.
+Proof. intros s H. apply mk_image_is_image. exact H. Qed.
